@@ -1,9 +1,9 @@
 (* C13Proofs.v — lemmas behind Prop_C13 that are not about the crop readers: date formats agree
    (from the C12 development), witnesses. *)
 From Coq Require Import ZArith List Bool Ascii String Floats Lia.
-From Hermes Require Import Util Num Calendar DateModel DateProofs CropParamModel CropParamProofs.
+From Hermes Require Import Util Num Calendar DateModel DateProofs CropParamModel CropParamProofs CropSamples.
 Import ListNotations.
-Open Scope Z_scope.
+Local Open Scope Z_scope.
 
 Lemma dates_agree_lemma : forall f1 f2 sep1 sep2 cent y m d,
   sep_ok sep1 -> sep_ok sep2 -> 0 <= cent <= 100 -> 1901 <= y <= 2099 ->
@@ -29,26 +29,6 @@ Proof.
   assert (B : read_bbch (T:=float) false hl100 = 100) by (vm_compute; reflexivity).
   rewrite A, B. discriminate.
 Qed.
-
-(* a small complete classic file: 2 organs, 2 stages *)
-Definition pad65 (s : string) : lstr := let l := lstr_of s in l ++ repeat "."%char (65 - List.length l).
-Definition fl (label value : string) : lstr := pad65 label ++ lstr_of value.
-Definition colsline (label : string) (vals : list string) : lstr :=
-  let l := lstr_of label in
-  l ++ repeat "."%char (32 - List.length l) ++
-  List.concat (map (fun v => " "%char :: lstr_of v ++ lstr_of "..") vals).
-Definition stage_lines (k : string) (t : string) (pro dead : list string) : list lstr :=
-  [pad65 ("-------- phase " ++ k); fl "tsum" t; fl "bas" "   4"; fl "vern" "   0"; fl "dayl" "   0"; fl "dlbas" "   0";
-   fl "dry" "   0.7"; fl "lukrit" "   0.08"; fl "sla" "   0.002"; fl "wgmax" "   0.02";
-   colsline "pro" pro; colsline "dead" dead; fl "kc" "   0.9"]%string.
-Definition sample_lines : list lstr :=
-  [lstr_of "crop model values"; lstr_of "crop: sample"; lstr_of "no";
-   fl "amax" "   40"; fl "typ" "   1"; fl "mintmp" "   4"; fl "wumax" "   12"; fl "veloc" "   0.7"; fl "ngefkt" "   1";
-   fl "ago" "   2"; fl "yield" "2.85"; fl "nbiom" "   6.0"; fl "nroot" "   2.0"; fl "nrkom" "   2";
-   lstr_of "compartments   root leaf"; colsline "weights" ["00053"; "00053"]; colsline "maint" ["0.010"; "0.030"];
-   fl "kcini" "   0.65"; fl "stages" "   2"]%string
-  ++ stage_lines "1" "   148" ["0.500"; "0.500"]%string ["0.000"; "0.000"]%string
-  ++ stage_lines "2" "   284" ["0.000"; "1.000"]%string ["0.000"; "0.020"]%string.
 
 Lemma sample_converts :
   exists r, convert (T:=float) sample_lines = Some r /\ r_nrkom r = 2 /\ r_nrentw r = 2 /\
